@@ -8,7 +8,11 @@
 // its SessionManager/lrusession (LRUMaxSessionCount = 2) and a recording user
 // state machine behind the real NativeSM wrappers, compared after every step
 // with a small reference model (map + explicit LRU list + per session
-// history) and, after every snapshot cut, with the restored twins.
+// history) and, after every snapshot cut, with the restored twins (fresh
+// StateMachines restored from the snapshot) and with the LAGGING replicas
+// (running StateMachines that had applied only a prefix 1..j of the entry
+// stream, for every j below the snapshot index, and were then caught up by
+// installing the snapshot through the real non-initial Recover path).
 package rsm
 
 import (
@@ -194,6 +198,10 @@ type c05Rep struct {
 	pending  []pb.Entry
 	tasks    []Task
 	apply    []sm.Entry
+	label    string
+	// lagging replica only: the session ids its table held when the snapshot
+	// was installed and that the snapshot does not contain
+	stale [c05LRULimit]uint64
 }
 
 func c05NewRep(mode int) *c05Rep {
@@ -337,6 +345,9 @@ const (
 	c05MaxReps  = 4
 	c05NoopID   = 0x7f
 	c05LRULimit = 2
+	// a snapshot at index S is also installed on running replicas that have
+	// applied 1..j for every S-c05MaxLag <= j < S; 0 = every j in [0, S)
+	c05MaxLag = 0
 )
 
 type c05Sent struct{ series, respondedTo uint64 }
@@ -366,13 +377,19 @@ func (c *c05Client) dupCandidates() []c05Sent {
 
 type c05 struct {
 	mode    int
-	reps    []*c05Rep
+	reps    []*c05Rep // [0] primary, then the twins restored into FRESH StateMachines
+	lags    []*c05Rep // lagging replicas that installed a snapshot while running
+	every   []*c05Rep // reps and lags in creation order
 	model   c05Model
 	clients [c05Clients]c05Client
 	index   uint64
 	noops   int
 	exp     []c05Exp   // by entry index (exp[0] unused)
 	log     []pb.Entry // by entry index (log[0] unused)
+	// session ids in the model's table after entry i (0 = free slot)
+	sessAt [][c05LRULimit]uint64
+	// number of user SM updates the model has seen after entry i
+	smAt []int
 	first   map[[2]uint64]sm.Result
 	// statistics of this path
 	nontrivial bool
@@ -389,9 +406,13 @@ func c05New(mode int) *c05 {
 	c := &c05{mode: mode, model: c05Model{cap: c05LRULimit}, first: map[[2]uint64]sm.Result{}}
 	c.exp = make([]c05Exp, 1, 8)
 	c.log = make([]pb.Entry, 1, 8)
+	c.sessAt = make([][c05LRULimit]uint64, 1, 8)
+	c.smAt = make([]int, 1, 8)
 	p := c05NewRep(mode)
 	p.sm.members.set(pb.Membership{Addresses: map[uint64]string{1: "a1"}})
+	p.label = "replica 0"
 	c.reps = []*c05Rep{p}
+	c.every = []*c05Rep{p}
 	return c
 }
 
@@ -540,7 +561,25 @@ func (c *c05) Step(ev uint32) (msg string) {
 	}
 	c.exp = append(c.exp, x)
 	c.log = append(c.log, e)
-	for _, r := range c.reps {
+	var ids [c05LRULimit]uint64
+	for i, s := range c.model.lru {
+		ids[i] = s.id
+	}
+	c.sessAt = append(c.sessAt, ids)
+	c.smAt = append(c.smAt, len(c.model.smlog))
+staleScan:
+	for _, r := range c.lags {
+		for _, id := range r.stale {
+			if id != 0 && id == e.ClientID {
+				// the manifesting scenario of a merged (instead of replaced) session
+				// table: an entry of a client whose session is gone everywhere but
+				// was still known to a lagging replica when it installed the snapshot
+				c.outcome(c05KindName[x.kind] + ":client-dropped-in-the-gap-of-a-lagging-replica")
+				break staleScan
+			}
+		}
+	}
+	for _, r := range c.every {
 		r.pending = append(r.pending, e)
 	}
 	if c.mode == 0 {
@@ -549,10 +588,39 @@ func (c *c05) Step(ev uint32) (msg string) {
 	return ""
 }
 
+// deliver hands entries to the real StateMachine of one replica through the
+// task queue and Handle (mode 0: one entry per task and Handle call; mode 1:
+// one task per maximal run of noop-session / session-managed entries, one
+// Handle call), then checks the completions of every entry up to upto.
+func (c *c05) deliver(r *c05Rep, ents []pb.Entry, upto uint64) string {
+	if c.mode == 0 {
+		r.sm.taskQ.Add(Task{Entries: ents})
+	} else {
+		start := 0
+		for i := 1; i <= len(ents); i++ {
+			if i == len(ents) || ents[i].IsNoOPSession() != ents[start].IsNoOPSession() {
+				r.sm.taskQ.Add(Task{Entries: append([]pb.Entry(nil), ents[start:i]...)})
+				start = i
+			}
+		}
+	}
+	t, err := r.sm.Handle(r.tasks[:0], r.apply[:0])
+	if err != nil {
+		return fmt.Sprintf("Handle on %s returned error %v", r.label, err)
+	}
+	if t.IsSnapshotTask() {
+		panic("harness: unexpected snapshot task")
+	}
+	if got := r.sm.GetLastApplied(); got != upto {
+		return fmt.Sprintf("%s applied up to %d after being handed entries up to %d", r.label, got, upto)
+	}
+	return c.checkCallbacks(r, upto)
+}
+
 // flush hands the pending entries of every replica to its real StateMachine
 // through the task queue and Handle, then evaluates the oracle.
 func (c *c05) flush() string {
-	for ri, r := range c.reps {
+	for _, r := range c.every {
 		if len(r.pending) == 0 {
 			continue
 		}
@@ -563,29 +631,7 @@ func (c *c05) flush() string {
 			r.overlap = false
 			ents = append([]pb.Entry{c.log[r.base]}, ents...)
 		}
-		if c.mode == 0 {
-			r.sm.taskQ.Add(Task{Entries: ents})
-		} else {
-			// one task per maximal run of noop-session / session-managed entries
-			start := 0
-			for i := 1; i <= len(ents); i++ {
-				if i == len(ents) || ents[i].IsNoOPSession() != ents[start].IsNoOPSession() {
-					r.sm.taskQ.Add(Task{Entries: append([]pb.Entry(nil), ents[start:i]...)})
-					start = i
-				}
-			}
-		}
-		t, err := r.sm.Handle(r.tasks[:0], r.apply[:0])
-		if err != nil {
-			return fmt.Sprintf("Handle on replica %d returned error %v", ri, err)
-		}
-		if t.IsSnapshotTask() {
-			panic("harness: unexpected snapshot task")
-		}
-		if got := r.sm.GetLastApplied(); got != c.index {
-			return fmt.Sprintf("replica %d applied up to %d after being handed entries up to %d", ri, got, c.index)
-		}
-		if msg := c.checkCallbacks(ri, r); msg != "" {
+		if msg := c.deliver(r, ents, c.index); msg != "" {
 			return msg
 		}
 	}
@@ -594,11 +640,12 @@ func (c *c05) flush() string {
 
 func c05ResEq(a, b sm.Result) bool { return a.Value == b.Value && bytes.Equal(a.Data, b.Data) }
 
-func (c *c05) checkCallbacks(ri int, r *c05Rep) string {
+func (c *c05) checkCallbacks(r *c05Rep, upto uint64) string {
+	ri := r.label
 	if r.checked < r.base {
 		r.checked = r.base
 	}
-	for r.checked < c.index {
+	for r.checked < upto {
 		r.checked++
 		idx := r.checked
 		x := c.exp[idx]
@@ -608,7 +655,7 @@ func (c *c05) checkCallbacks(ri int, r *c05Rep) string {
 			r.cbNext++
 		}
 		if r.cbNext < len(r.node.cbs) && r.node.cbs[r.cbNext].index <= idx {
-			return fmt.Sprintf("replica %d: more than one completion (or one out of order) for entry %d", ri, idx)
+			return fmt.Sprintf("%s: more than one completion (or one out of order) for entry %d", ri, idx)
 		}
 		got := "none"
 		if cb != nil {
@@ -634,21 +681,21 @@ func (c *c05) checkCallbacks(ri int, r *c05Rep) string {
 			key := [2]uint64{x.id, x.series}
 			if f, ok := c.first[key]; ok {
 				if !c05ResEq(f, cb.res) {
-					return fmt.Sprintf("replica %d: a completed retry returned a result different from the first result (entry %d: %s)", ri, idx, c05KindName[x.kind])
+					return fmt.Sprintf("%s: a completed retry returned a result different from the first result (entry %d: %s)", ri, idx, c05KindName[x.kind])
 				}
 			} else {
 				c.first[key] = cb.res
 			}
 		}
 		if got != want {
-			return fmt.Sprintf("replica %d: entry expected to be %s completed as %s (entry %d)", ri, c05KindName[x.kind], got, idx)
+			return fmt.Sprintf("%s: entry expected to be %s completed as %s (entry %d)", ri, c05KindName[x.kind], got, idx)
 		}
 		if got == "result" && !c05ResEq(cb.res, x.res) {
-			return fmt.Sprintf("replica %d: wrong result for an entry expected to be %s (entry %d: got %d want %d)", ri, c05KindName[x.kind], idx, cb.res.Value, x.res.Value)
+			return fmt.Sprintf("%s: wrong result for an entry expected to be %s (entry %d: got %d want %d)", ri, c05KindName[x.kind], idx, cb.res.Value, x.res.Value)
 		}
 	}
 	if r.cbNext != len(r.node.cbs) {
-		return fmt.Sprintf("replica %d: completion reported for an entry that was not handed to it", ri)
+		return fmt.Sprintf("%s: completion reported for an entry that was not handed to it", ri)
 	}
 	return ""
 }
@@ -684,9 +731,85 @@ func (c *c05) snapshot(which int) string {
 		return "restored replica is not at the snapshot index"
 	}
 	tw.base, tw.checked, tw.overlap = ss.Index, ss.Index, true
+	tw.label = fmt.Sprintf("replica %d", len(c.reps))
 	c.reps = append(c.reps, tw)
+	c.every = append(c.every, tw)
 	c.outcome("cut")
+	// the same snapshot is installed on running replicas that lag behind: one
+	// for every prefix 1..j of the entry stream, 0 <= j < snapshot index
+	lo := uint64(0)
+	if c05MaxLag > 0 && ss.Index > c05MaxLag {
+		lo = ss.Index - c05MaxLag
+	}
+	for j := lo; j < ss.Index; j++ {
+		if msg := c.addLagging(j, src, ss); msg != "" {
+			return msg
+		}
+	}
 	return c.Check()
+}
+
+// addLagging builds a replica that has applied exactly the entries 1..j on a
+// running StateMachine (same delivery mode as the primary), then receives the
+// snapshot taken by src at ss.Index > j and installs it through the real
+// non-initial Recover path (what a follower does on InstallSnapshot), and from
+// then on is handed every later entry like all the other replicas.
+func (c *c05) addLagging(j uint64, src *c05Rep, ss pb.Snapshot) string {
+	l := c05NewRep(c.mode)
+	l.sm.members.set(pb.Membership{Addresses: map[uint64]string{1: "a1"}})
+	l.label = fmt.Sprintf("lagging replica(%d->%d)", j, ss.Index)
+	if c.mode == 0 {
+		for i := uint64(1); i <= j; i++ {
+			if msg := c.deliver(l, []pb.Entry{c.log[i]}, i); msg != "" {
+				return msg
+			}
+		}
+	} else if j > 0 {
+		if msg := c.deliver(l, append([]pb.Entry(nil), c.log[1:j+1]...), j); msg != "" {
+			return msg
+		}
+	}
+	if !c05LogEq(l.core.log, c.model.smlog[:c.smAt[j]]) {
+		return fmt.Sprintf("%s: user state machine content differs from the model before the snapshot was installed", l.label)
+	}
+	l.snap.ss = ss
+	l.snap.data = append([]byte(nil), src.snap.data...)
+	got, err := l.sm.Recover(Task{Recover: true, Index: ss.Index})
+	if err != nil {
+		return fmt.Sprintf("%s: installing the snapshot on a running replica failed: %v", l.label, err)
+	}
+	if got.Index != ss.Index || l.sm.GetLastApplied() != ss.Index {
+		return fmt.Sprintf("%s: not at the snapshot index after installing the snapshot", l.label)
+	}
+	l.base = ss.Index
+	// statistics: did the replica know a session the snapshot does not contain?
+	had, now := c.sessAt[j], c.sessAt[ss.Index]
+	n, k := 0, 0
+	for _, id := range had {
+		if id == 0 {
+			continue
+		}
+		n++
+		kept := false
+		for _, id2 := range now {
+			kept = kept || id2 == id
+		}
+		if !kept {
+			l.stale[k] = id
+			k++
+		}
+	}
+	switch {
+	case k > 0:
+		c.outcome("lag-install:replica-knew-a-session-dropped-in-the-gap")
+	case n > 0:
+		c.outcome("lag-install:all-known-sessions-still-in-snapshot")
+	default:
+		c.outcome("lag-install:replica-knew-no-session")
+	}
+	c.lags = append(c.lags, l)
+	c.every = append(c.every, l)
+	return ""
 }
 
 func c05LogEq(a, b [][]byte) bool {
@@ -712,27 +835,33 @@ func (c *c05) Check() (msg string) {
 	if len(c.reps[0].pending) > 0 || c.skipCheck {
 		return ""
 	}
-	for ri, r := range c.reps {
+	for _, r := range c.every {
+		ri := r.label
 		// clause: applied at most once per (client, series)
 		seen := map[string]bool{}
 		for _, cmd := range r.core.log {
 			if seen[string(cmd)] {
-				return fmt.Sprintf("replica %d: user Update called twice for the same (client, series)", ri)
+				return fmt.Sprintf("%s: user Update called twice for the same (client, series)", ri)
 			}
 			seen[string(cmd)] = true
 		}
 		if !c05LogEq(r.core.log, c.model.smlog) {
 			if len(r.core.log) > len(c.model.smlog) {
-				return fmt.Sprintf("replica %d: user state machine was updated by an entry that must not touch it", ri)
+				return fmt.Sprintf("%s: user state machine was updated by an entry that must not touch it", ri)
 			}
-			return fmt.Sprintf("replica %d: user state machine content differs from the model (an expected update is missing or different)", ri)
+			return fmt.Sprintf("%s: user state machine content differs from the model (an expected update is missing or different)", ri)
 		}
 	}
-	if len(c.reps) > 1 {
+	if len(c.every) > 1 {
 		h0 := c.reps[0].sm.GetSessionHash()
 		for ri := 1; ri < len(c.reps); ri++ {
 			if h := c.reps[ri].sm.GetSessionHash(); h != h0 {
 				return fmt.Sprintf("session hash of replica %d (restored from a snapshot) differs from the original", ri)
+			}
+		}
+		for _, l := range c.lags {
+			if h := l.sm.GetSessionHash(); h != h0 {
+				return fmt.Sprintf("session hash of %s (snapshot installed on a running replica that had applied a prefix of the entries) differs from the original", l.label)
 			}
 		}
 	}
@@ -969,11 +1098,12 @@ func TestVerifC05(t *testing.T) {
 	res := verifkit.NewResult()
 	defer run.Finish(res)
 	depth := run.Pick(6, 7)
-	res.Rule = fmt.Sprintf("every sequence of exactly %d enabled ops (and thereby every shorter one as a prefix) over {register(c), unregister(c), next(c), retry(c), abandon(c) (series given up before reaching the log, may still arrive late), late-dup(c,k<=2), noop-session proposal, snapshot+restore from the primary / from the newest restored twin} for 3 client slots with LRUMaxSessionCount=2, in two delivery modes (0: regular IStateMachine, one entry per task, oracle after every entry; 1: IConcurrentStateMachine, entries batched into tasks per run of noop/session entries and handed over at snapshot cuts and at the end, which reaches handleBatch); evaluation = one complete sequence executed on the real StateMachine(s) and compared with the reference model after every hand-over; distinct_nontrivial = sequences containing at least one cached / ignored / rejected outcome, an LRU eviction, or entries applied on both sides of a snapshot cut (all sequences are distinct by construction)", depth)
+	res.Rule = fmt.Sprintf("every sequence of exactly %d enabled ops (and thereby every shorter one as a prefix) over {register(c), unregister(c), next(c), retry(c), abandon(c) (series given up before reaching the log, may still arrive late), late-dup(c,k<=2), noop-session proposal, snapshot+restore from the primary / from the newest restored twin} for 3 client slots with LRUMaxSessionCount=2, in two delivery modes (0: regular IStateMachine, one entry per task, oracle after every entry; 1: IConcurrentStateMachine, entries batched into tasks per run of noop/session entries and handed over at snapshot cuts and at the end, which reaches handleBatch); every snapshot op at index S restores the snapshot into a FRESH StateMachine (twin) and additionally installs it, through the real non-initial Recover, on one RUNNING lagging replica for every lag point j in [0,S) (a StateMachine that has applied exactly entries 1..j); twins and lagging replicas then receive every later entry; evaluation = one complete sequence executed on the real StateMachine(s) and compared with the reference model after every hand-over; distinct_nontrivial = sequences containing at least one cached / ignored / rejected outcome, an LRU eviction, or entries applied on both sides of a snapshot cut (all sequences are distinct by construction)", depth)
 	res.Assumptions = []string{
 		"the snapshot container (file format, compression) is replaced by an in-memory byte stream; SaveSessions/LoadSessions, NativeSM.Save/Recover and StateMachine.Save/Recover are real",
 		"a client slot that registers again gets a fresh client id (ids are random 64 bit values in the real client), so the duplicate of a REGISTER entry is not part of the alphabet",
 		"the reference LRU counts every entry that looks a session up (proposal, unregister) as a use",
+		"a lagging replica is a StateMachine started empty that applied entries 1..j (not itself restored from an earlier snapshot) and is not handed entries the installed snapshot already covers",
 	}
 	if run.Replay != "" {
 		var rp c05Replay
@@ -1061,6 +1191,14 @@ func TestVerifC05(t *testing.T) {
 	res.Extra["sequences_with_entries_after_a_cut"] = cuts
 	res.Extra["distinct_final_model_states_this_shard"] = int64(states.Len())
 	res.Extra["max_depth"] = depth
+	var lagInstalls int64
+	for k, v := range res.Outcomes {
+		if len(k) > 12 && k[:12] == "lag-install:" {
+			lagInstalls += v
+		}
+	}
+	res.Extra["snapshot_installs_on_running_lagging_replicas"] = lagInstalls
+	res.Extra["snapshot_installs_on_lagging_replicas_knowing_a_session_dropped_in_the_gap"] = res.Outcomes["lag-install:replica-knew-a-session-dropped-in-the-gap"]
 	res.Extra["work_items_total"] = fmt.Sprint(len(items))
 	if s := c05Sample(depth); s != nil && run.Shard == 0 {
 		res.Sample(1, s)
